@@ -78,13 +78,7 @@ func (e *c01Exp) ExportSpans(ctx context.Context, spans []ReadOnlySpan) error {
 }
 
 func (e *c01Exp) Shutdown(context.Context) error {
-	e.shutdowns++
-	if e.shutdowns > 1 {
-		e.x.Fail("C01|exporter-shutdown-twice", "exporter Shutdown called %d times", e.shutdowns)
-	}
-	if e.inflight > 0 {
-		e.x.Fail("C01|exporter-shutdown-during-export", "exporter Shutdown while ExportSpans in flight")
-	}
+	e.shutdowns++ // shutdown counts are judged by C15
 	return nil
 }
 
@@ -139,6 +133,8 @@ func c01Body(cfg c01Cfg, sc c01Scn, res *string) func(x *sched.Exec) {
 		bsp := NewBatchSpanProcessor(e, opts...).(*batchSpanProcessor)
 		endedAt := map[string]int{}
 		var results []string
+		firstShutdownAt := -1 // step at which the first Shutdown call was made
+		shutdownCalls := 0
 		checkFlush := func(what string, calledAt int, err error) {
 			results = append(results, fmt.Sprintf("%s=%v", what, err))
 			if err != nil {
@@ -146,9 +142,20 @@ func c01Body(cfg c01Cfg, sc c01Scn, res *string) func(x *sched.Exec) {
 			}
 			var missing []string
 			for n, at := range endedAt {
+				// a span whose End had not returned before the first Shutdown call is telemetry
+				// "after shutdown": the processor may legitimately ignore it
+				if firstShutdownAt >= 0 && at >= firstShutdownAt {
+					continue
+				}
 				if at < calledAt && strings.HasPrefix(n, "s") && e.seen[n] == 0 {
 					missing = append(missing, n)
 				}
+			}
+			if what == "Shutdown" && shutdownCalls > 1 {
+				what = "repeated Shutdown while an earlier Shutdown had not completed"
+			}
+			if what == "ForceFlush" && firstShutdownAt >= 0 {
+				what = "ForceFlush overlapping or following a Shutdown call"
 			}
 			sort.Strings(missing)
 			dropped := int(bsp.dropped)
@@ -177,18 +184,23 @@ func c01Body(cfg c01Cfg, sc c01Scn, res *string) func(x *sched.Exec) {
 				checkFlush("ForceFlush", at, err)
 			case op == "S":
 				at := x.Step()
+				if firstShutdownAt < 0 {
+					firstShutdownAt = at
+				}
+				shutdownCalls++
 				err := bsp.Shutdown(context.Background())
 				checkFlush("Shutdown", at, err)
 				if err == nil {
 					e.closedOK = true
-					if e.shutdowns != 1 {
-						x.Fail("C01|exporter-not-shut-down", "processor Shutdown returned nil, exporter Shutdown called %d times", e.shutdowns)
-					}
 				}
 			case op == "Sc":
 				ctx, cancel := vctx.WithCancel(context.Background())
 				sched.Go(cancel)
 				at := x.Step()
+				if firstShutdownAt < 0 {
+					firstShutdownAt = at
+				}
+				shutdownCalls++
 				err := bsp.Shutdown(ctx)
 				checkFlush("Shutdown", at, err)
 				if err == nil {
